@@ -108,6 +108,20 @@ def check_convert(
         raise TypeError(err_str + msg_str) from e
     return converted_variable
 
+def count_time_steps(
+        start_time: float,
+        end_time: float,
+        dt: float,
+        tolerance: float = 1.0e-8) -> int:
+    """
+    Number of whole time steps of length `dt` that fit between `start_time`
+    and `end_time`. An `end_time` that is a multiple of `dt` away from
+    `start_time` up to floating point rounding (e.g. 0.3 for dt=0.1, where
+    0.3/0.1 evaluates to 2.9999999999999996) counts as reached: the quotient
+    may fall short of an integer by up to `tolerance`.
+    """
+    return int(np.floor((end_time - start_time) / dt + tolerance))
+
 def check_true(
         expr: bool,
         msg: Text = None):
